@@ -213,6 +213,11 @@ func (f *Frame) calleeEval(callee *ssa.Function, st, old *State, args []Val, res
 }
 
 func bindNames(vars map[string]Val, fn *ssa.Function, args []Val, results []Val) {
+	if fn.Signature.Recv() != nil && len(args) > 0 {
+		a := args[0]
+		a.Typ = fn.Params[0].Type()
+		vars["self"] = a
+	}
 	for i, p := range fn.Params {
 		if i < len(args) {
 			a := args[i]
@@ -552,6 +557,10 @@ func (f *Frame) invoke(instr ssa.Instruction, c *ssa.CallCommon, st *State, recv
 	src := f.text(pos)
 	g.oblige(st, "nil", pos, src, tNot(tEq(recv.Comps[0], intLit(0))))
 	iface := under(c.Value.Type()).(*types.Interface)
+	if ifc := g.ctx.ifaceContract(c.Method); ifc != nil {
+		// interface-level contract: every implementation is checked to refine it
+		return f.ifaceModular(instr, c, ifc, st, recv, args, pos)
+	}
 	cands := g.ctx.implementers(iface, c.Method, pkgOf(f.fn))
 	type branch struct {
 		st   *State
@@ -923,7 +932,7 @@ func (f *Frame) appendBuiltin(instr ssa.Instruction, c *ssa.CallCommon, st *Stat
 	newLen := g.name("alen", tAdd(ln, n))
 	inPlace := g.name("inplace", tCmp("<=", newLen, cp))
 	// alias obligation (only when the contract asks for it): writing into spare capacity of a non-fresh slice
-	if g.topC != nil && g.topC.HasModifies {
+	if g.topC != nil && g.topC.CheckAlias {
 		g.oblige(st, "alias", pos, src, tOr(tEq(n, intLit(0)), tNot(inPlace), tCmp(">=", ptr, g.entryW), g.coveredRange(elem, tAdd(ptr, tMul(ln, intLit(cs))), tAdd(ptr, tMul(newLen, intLit(cs))))))
 	}
 	// new backing array (used when not in place)
